@@ -310,6 +310,32 @@ theorem Loc.wr {r : Nat} {p : Id} {o : Obj} (hp : p.reg = r) (ho : InReg r o) : 
       subst hp
       simp only [put_same, e]
 
+theorem Loc.wrLeaf {r : Nat} {p : Id} {o : Obj} (hp : p.reg = r) (ho : InReg r o) :
+    Loc r (wrLeaf p o) (fun _ => True) := by
+  constructor
+  · intro h c
+    unfold Heap.wrLeaf
+    cases hg : h.get? p with
+    | none => exact ⟨c, fun _ _ => rfl, fun a _ => trivial⟩
+    | some o' =>
+      simp only
+      split
+      · exact ⟨c.put p o (fun _ => ho), fun r' hr => put_other h p o r' (by rw [hp]; exact hr), fun _ _ => trivial⟩
+      · exact ⟨c, fun _ _ => rfl, fun a _ => trivial⟩
+  · intro h1 h2 c e
+    unfold Heap.wrLeaf
+    have eg : h2.get? p = h1.get? p := (get?_congr (by rw [hp]; exact e)).symm
+    rw [eg]
+    cases h1.get? p with
+    | none => exact ⟨rfl, e.symm⟩
+    | some o' =>
+      simp only
+      split
+      · refine ⟨rfl, ?_⟩
+        subst hp
+        simp only [put_same, e]
+      · exact ⟨rfl, e.symm⟩
+
 theorem Loc.new {r : Nat} {o : Obj} (ho : InReg r o) : Loc r (new r o) (fun p => p.reg = r) := by
   constructor
   · intro h c
@@ -408,11 +434,21 @@ theorem Loc.rdSim {r : Nat} {p : Id} (hp : p.reg = r) : Loc r (rdSim p) (fun o =
   cases o <;> simp [Obj.sim?] at ha
   subst ha; exact ho
 
+theorem Loc.updSim {r : Nat} {x : Id} {f : SimObj → SimObj} (hx : x.reg = r)
+    (hf : ∀ so, InReg r (.sim so) → InReg r (.sim (f so))) : Loc r (updSim x f) (fun _ => True) := by
+  unfold Heap.updSim
+  exact Loc.bind (Loc.rdSim hx) fun so hso => Loc.wr hx (hf so hso)
+
 theorem Loc.rdPop {r : Nat} {p : Id} (hp : p.reg = r) : Loc r (rdPop p) (fun o => InReg r (.pop o)) := by
   unfold Heap.rdPop
   refine Loc.bind (Loc.rd hp) fun o ho => Loc.ofOption _ _ fun a ha => ?_
   cases o <;> simp [Obj.pop?] at ha
   subst ha; exact ho
+
+theorem Loc.updPop {r : Nat} {p : Id} {f : PopObj → PopObj} (hp : p.reg = r)
+    (hf : ∀ po, InReg r (.pop po) → InReg r (.pop (f po))) : Loc r (updPop p f) (fun _ => True) := by
+  unfold Heap.updPop
+  exact Loc.bind (Loc.rdPop hp) fun po hpo => Loc.wr hp (hf po hpo)
 
 theorem Loc.rdHolder {r : Nat} {p : Id} (hp : p.reg = r) : Loc r (rdHolder p) (fun o => InReg r (.holder o)) := by
   unfold Heap.rdHolder
@@ -482,18 +518,18 @@ theorem Loc.diskInsert {r : Nat} {did : Id} (hd : did.reg = r) (v : Vec) (p : Pe
   unfold Heap.diskInsert
   refine Loc.bind (Loc.rdDisk hd) fun d hdo => ?_
   refine Loc.bind (Loc.rdDir hdo) fun dir _ => ?_
-  refine Loc.bind (Loc.wr hdo trivial) fun _ _ => ?_
-  exact Loc.wr hd hdo
+  refine Loc.bind (Loc.wrLeaf hdo trivial) fun _ _ => ?_
+  exact Loc.wrLeaf hd hdo
 
 theorem Loc.diskRemove {r : Nat} {did : Id} (hd : did.reg = r) (p : Option Period) :
     Loc r (diskRemove did p) (fun _ => True) := by
   unfold Heap.diskRemove
   refine Loc.bind (Loc.rdDisk hd) fun d hdo => ?_
   cases p with
-  | none => exact Loc.wr hd hdo
+  | none => exact Loc.wrLeaf hd hdo
   | some p =>
     refine Loc.bind (Loc.ofPeriod _ fun _ _ => trivial) fun l _ => ?_
-    exact Loc.wr hd hdo
+    exact Loc.wrLeaf hd hdo
 
 theorem Loc.dataStorageDir {r : Nat} {sid : Id} (hs : sid.reg = r) :
     Loc r (dataStorageDir r sid) (fun d => d.reg = r) := by
@@ -503,8 +539,8 @@ theorem Loc.dataStorageDir {r : Nat} {sid : Id} (hs : sid.reg = r) :
   | some d => exact Loc.pure _ (hso.2.2.2.2 d hsd)
   | none =>
     refine Loc.bind (Loc.new trivial) fun d hd => ?_
-    refine Loc.bind (Loc.wr hs ?_) fun _ _ => Loc.pure _ hd
-    exact ⟨hso.1, hso.2.1, hso.2.2.1, hso.2.2.2.1, fun x e => by cases e; exact hd⟩
+    refine Loc.bind (Loc.updSim hs fun so2 hso2 => ?_) fun _ _ => Loc.pure _ hd
+    exact ⟨hso2.1, hso2.2.1, hso2.2.2.1, hso2.2.2.2.1, fun x e => by cases e; exact hd⟩
 
 theorem Loc.createDisk {r : Nat} {sid : Id} (hs : sid.reg = r) (v : Var) (eternal : Bool) :
     Loc r (createDisk r sid v eternal) (fun (d : Option Id) => ∀ x : Id, d = some x → x.reg = r) := by
@@ -529,8 +565,7 @@ theorem Loc.createHolder {r : Nat} (sys : Sys) {pid : Id} (hp : pid.reg = r) (v 
   generalize (match so.memConfig with | none => false | some mc => decide (v ∈ mc.drop)) = ns
   have hho : InReg r (.holder ⟨v, pid, po.sim, mem, disk, ns⟩) := ⟨hp, hpo.1, hmem, hdisk⟩
   refine Loc.bind (Loc.new hho) fun hid hhid => ?_
-  refine Loc.bind (Loc.rdPop hp) fun po2 hpo2 => ?_
-  refine Loc.bind (Loc.wr hp ?_) fun _ _ => Loc.pure _ ⟨hhid, hho⟩
+  refine Loc.bind (Loc.updPop hp fun po2 hpo2 => ?_) fun _ _ => Loc.pure _ ⟨hhid, hho⟩
   refine ⟨hpo2.1, fun e he => ?_, hpo2.2.2⟩
   rcases List.mem_append.mp he with h1 | h1
   · exact hpo2.2.1 e h1
@@ -592,11 +627,11 @@ theorem Loc.holderSet {r : Nat} (sys : Sys) {ho : HolderObj} (hho : InReg r (.ho
   refine Loc.ite (fun _ => Loc.fail _) fun _ => ?_
   refine Loc.bind (Loc.rdStore hho.2.2.1) fun st _ => ?_
   cases hd : ho.disk with
-  | none => exact Loc.wr hho.2.2.1 trivial
+  | none => exact Loc.wrLeaf hho.2.2.1 trivial
   | some did =>
     simp only
     split
-    · exact Loc.wr hho.2.2.1 trivial
+    · exact Loc.wrLeaf hho.2.2.1 trivial
     · refine Loc.bind (Loc.rdSim hho.2.1) fun so _ => ?_
       split
       · exact Loc.fail _
@@ -615,7 +650,7 @@ theorem Loc.holderDelete {r : Nat} {ho : HolderObj} (hho : InReg r (.holder ho))
   unfold Heap.holderDelete
   refine Loc.bind (Loc.rdStore hho.2.2.1) fun st _ => ?_
   refine Loc.bind (Loc.ofPeriod _ fun _ _ => trivial) fun st' _ => ?_
-  refine Loc.bind (Loc.wr hho.2.2.1 trivial) fun _ _ => ?_
+  refine Loc.bind (Loc.wrLeaf hho.2.2.1 trivial) fun _ _ => ?_
   cases hd : ho.disk with
   | none => exact Loc.pure _ trivial
   | some did => exact Loc.diskRemove (hho.2.2.2 did hd) p
@@ -653,8 +688,7 @@ theorem Loc.deleteArrays {r : Nat} (sys : Sys) {x : Id} (hx : x.reg = r) (v : Va
 theorem Loc.setTrace {r : Nat} {x : Id} (hx : x.reg = r) (b : Bool) : Loc r (setTrace x b) (fun _ => True) := by
   unfold Heap.setTrace
   refine Loc.bind (by rw [hx]; exact Loc.new trivial) fun t ht => ?_
-  refine Loc.bind (Loc.rdSim hx) fun so hso => ?_
-  exact Loc.wr hx ⟨hso.1, hso.2.1, ht, hso.2.2.2.1, hso.2.2.2.2⟩
+  exact Loc.updSim hx fun so hso => ⟨hso.1, hso.2.1, ht, hso.2.2.2.1, hso.2.2.2.2⟩
 
 theorem Loc.checkForCycle {r : Nat} {x : Id} (hx : x.reg = r) (v : Var) (p : Period) :
     Loc r (checkForCycle x v p) (fun _ => True) := by
@@ -664,20 +698,20 @@ theorem Loc.checkForCycle {r : Nat} {x : Id} (hx : x.reg = r) (v : Var) (p : Per
   refine Loc.ite (fun _ => Loc.fail _) fun _ => ?_
   refine Loc.ite (fun _ => ?_) fun _ => Loc.pure _ trivial
   refine Loc.bind (Loc.rdInval hso.2.2.2.1) fun inv _ => ?_
-  exact Loc.bind (Loc.wr hso.2.2.2.1 trivial) fun _ _ => Loc.fail _
+  exact Loc.bind (Loc.wrLeaf hso.2.2.2.1 trivial) fun _ _ => Loc.fail _
 
 theorem Loc.tracerStart {r : Nat} {x : Id} (hx : x.reg = r) (v : Var) (p : Period) :
     Loc r (tracerStart x v p) (fun _ => True) := by
   unfold Heap.tracerStart
   refine Loc.bind (Loc.rdSim hx) fun so hso => ?_
   refine Loc.bind (Loc.rdTracer hso.2.2.1) fun tr _ => ?_
-  exact Loc.wr hso.2.2.1 trivial
+  exact Loc.wrLeaf hso.2.2.1 trivial
 
 theorem Loc.tracerEnd {r : Nat} {x : Id} (hx : x.reg = r) : Loc r (tracerEnd x) (fun _ => True) := by
   unfold Heap.tracerEnd
   refine Loc.bind (Loc.rdSim hx) fun so hso => ?_
   refine Loc.bind (Loc.rdTracer hso.2.2.1) fun tr _ => ?_
-  exact Loc.wr hso.2.2.1 trivial
+  exact Loc.wrLeaf hso.2.2.1 trivial
 
 theorem Loc.purgeEach {r : Nat} (sys : Sys) {x : Id} (hx : x.reg = r) (ks : List Key) :
     Loc r (purgeEach sys x ks) (fun _ => True) := by
@@ -698,8 +732,7 @@ theorem Loc.purge {r : Nat} (sys : Sys) {x : Id} (hx : x.reg = r) : Loc r (purge
   refine Loc.bind (Loc.rdInval hso.2.2.2.1) fun inv _ => ?_
   refine Loc.bind (Loc.purgeEach sys hx inv) fun _ _ => ?_
   refine Loc.bind (by rw [hx]; exact Loc.new trivial) fun i hi => ?_
-  refine Loc.bind (Loc.rdSim hx) fun so2 hso2 => ?_
-  exact Loc.wr hx ⟨hso2.1, hso2.2.1, hso2.2.2.1, hi, hso2.2.2.2.2⟩
+  exact Loc.updSim hx fun so2 hso2 => ⟨hso2.1, hso2.2.1, hso2.2.2.1, hi, hso2.2.2.2.2⟩
 
 theorem Loc.transformPeriod {r : Nat} (pt : PT) (p : Period) : Loc r (transformPeriod pt p) (fun _ => True) := by
   cases pt with
@@ -754,6 +787,14 @@ theorem Loc.evalTerm {r : Nat} (sys : Sys) {rec : Id → Var → Period → HM V
     refine Loc.bind (Q := fun (g : Id) => g.reg = r) (Loc.ofOption _ _ fun a ha => hso.2.1 _ (alGet_mem ha)) fun gid hgid => ?_
     exact Loc.bind (Loc.rdPop hgid) fun go _ => Loc.pure _ trivial
   | param => exact Loc.pure _ trivial
+  | nth k =>
+    simp only
+    refine Loc.bind (Q := fun (m : Id) => m.reg = r) (Loc.ofOption _ _ fun a ha => hpo.2.2 a ha) fun mid hmid => ?_
+    refine Loc.bind (Loc.rdPop hmid) fun mo hmo => ?_
+    refine Loc.ite (fun _ => Loc.fail _) fun _ => ?_
+    refine Loc.bind (hrec _ _ _ hmo.1) fun a _ => ?_
+    refine Loc.ite (fun _ => Loc.fail _) fun _ => ?_
+    exact Loc.ite (fun _ => Loc.fail _) fun _ => Loc.ofOption _ _ fun _ _ => trivial
 
 theorem Loc.evalTerms {r : Nat} (sys : Sys) {rec : Id → Var → Period → HM Vec} (hrec : RecLoc r rec)
     {pid : Id} (hp : pid.reg = r) (ent : Nat) (p : Period) (ts : List Term) (acc : Vec) :
@@ -790,7 +831,7 @@ theorem Loc.taintOnHit {r : Nat} {x : Id} (hx : x.reg = r) (v : Var) (p : Period
   refine Loc.bind (Loc.rdSim hx) fun so hso => ?_
   refine Loc.bind (Loc.rdInval hso.2.2.2.1) fun inv _ => ?_
   refine Loc.ite (fun _ => ?_) fun _ => Loc.pure _ trivial
-  exact Loc.bind (Loc.rdTracer hso.2.2.1) fun tr _ => Loc.wr hso.2.2.2.1 trivial
+  exact Loc.bind (Loc.rdTracer hso.2.2.1) fun tr _ => Loc.wrLeaf hso.2.2.2.1 trivial
 
 theorem Loc.calcInner {r : Nat} (sys : Sys) {rec : Id → Var → Period → HM Vec} (hrec : RecLoc r rec)
     {x : Id} (hx : x.reg = r) (v : Var) (p : Period) : Loc r (calcInner sys rec x v p) (fun _ => True) := by
